@@ -54,6 +54,8 @@ inductive HOut where
   | notNeeded     -- Check = (false, nil)
   | checkErr      -- Check returned an error
   | decodeErr     -- Decode returned an error
+  | okDelErr          -- handled successfully, but the KV `Delete` of the event failed: the event stays
+  | notNeededDelErr   -- declared unnecessary, but the KV `Delete` failed: the event stays
   deriving Repr, DecidableEq, Inhabited
 
 inductive CallKind where
@@ -86,6 +88,8 @@ def handleOne (o : HOut) (ev : Event) : List HCall × Bool :=
   | .notNeeded => ([c .decode, c .check], true)
   | .handleErr => ([c .decode, c .check, c .handle], false)
   | .ok => ([c .decode, c .check, c .handle], true)
+  | .okDelErr => ([c .decode, c .check, c .handle], false)
+  | .notNeededDelErr => ([c .decode, c .check], false)
 
 /-- second loop of `Hydro.Recover` -/
 def recoverLoop (reg : List String) (out : Event → HOut) : List Event → KV → List HCall × KV
